@@ -372,6 +372,25 @@ def windowsTailNts (r : Rx) : Option Windows :=
     inserted in front of a copy of the header and the authentic payload `p` -/
 def reframed (pre h f p : Bytes) : Rx := ⟨pre, h ++ (f ++ (h ++ p))⟩
 
+/-! ### the listener (core/server/server_scion.go runSCIONServer) -/
+
+/-- The byte strings the SCION listener hands to `ntp.DecodePacket`, to `nts.DecodePacket` /
+    `nts.ProcessRequest`, and as `Pld` into the MAC of the REQUEST's packet authenticator — as
+    repaired: what the UDP layer decoded. -/
+def srvWindows (r : Rx) : Option Windows := windows r
+
+/-- before the `fix:` commit: the request MAC over the last `Length` bytes of the buffer -/
+def srvWindowsOld (r : Rx) : Option Windows := windowsOld r
+
+/-- The reply: the listener serialises the payload, then the UDP header in front of it with
+    `FixLengths` (length field := 8 + |payload|, bytes 4 and 5 of the header), computes the reply
+    authenticator's MAC over `buffer.Bytes()` at that point, and then puts the end-to-end extension
+    and the SCION header (`pre`) in front. Result: the L4 bytes on the wire and the bytes MAC'ed. -/
+def srvReply (sp dp cs : Nat × Nat) (payload : Bytes) : Bytes × Bytes :=
+  let len := 8 + payload.length
+  let l4 := [sp.1, sp.2, dp.1, dp.2, len / 256 % 256, len % 256, cs.1, cs.2] ++ payload
+  (l4, l4)
+
 /-! ## (e) cookie flow of one exchange -/
 
 /-- what one call of `measureClockOffsetIP` / `…SCION` with NTS does to the fetcher's pool,
@@ -405,6 +424,33 @@ def flowStep (giveBack : Bool) (s : Flow) (e : Exch) : Flow :=
 def flowRun (giveBack : Bool) (s : Flow) : List Exch → Flow
   | [] => s
   | e :: es => flowRun giveBack (flowStep giveBack s e) es
+
+/-! ## (g) the socket of an exchange -/
+
+/-- `lc.ListenPacket(ctx, "udp", netip.AddrPortFrom(laddr, 0).String())`: the port the clients ask
+    the kernel for when they open the socket of an exchange — the literal 0 ("any free port"),
+    whatever port the configured local address carries. `bindConfigured = true` is the variant that
+    passes the configured address with its port. -/
+def requestedPort (bindConfigured : Bool) (cfgPort : Nat) : Nat := if bindConfigured then cfgPort else 0
+
+/-- the port the socket is bound to: the requested one, or the kernel's choice when 0 was requested -/
+def boundPort (requested kernelChoice : Nat) : Nat := if requested = 0 then kernelChoice else requested
+
+/-- local port of the socket of exchange `j`; `kernel j` = the port the kernel would pick for it -/
+def socketPort (bindConfigured : Bool) (cfgPort : Nat) (kernel : Nat → Nat) (j : Nat) : Nat :=
+  boundPort (requestedPort bindConfigured cfgPort) (kernel j)
+
+/-- a datagram on its way to the client host: destination port, and (ghost) the exchange whose
+    request it was sent in answer to -/
+structure Wire (D : Type) where
+  d : D
+  dstPort : Nat
+  answers : Nat
+
+/-- what the socket bound to `port` delivers of the datagrams that arrive while it is open: those
+    addressed to its port, in order (receive time and deadline verdict as the loop sees them) -/
+def socketDelivers {D : Type} (port : Nat) (arriving : List (Wire D × Int × Bool)) : List (Event D) :=
+  (arriving.filter fun w => w.1.dstPort == port).map fun w => Event.dgram w.1.d w.2.1 w.2.2
 
 /-! ## (f) destination of the NTS-protected request along a history of key exchanges on one client -/
 
